@@ -18,6 +18,10 @@ def run(ctx):
     simrules.ancilla_initial_state_rule(ctx, 'C09.g')
     simrules.noise_before_deferral_rule(ctx, 'C09.h')
     simrules.order_independent_reduction_rule(ctx, 'C09.i')
+    simrules.noise_loop_no_break_rule(ctx, 'C09.j')
+    ctx.decided.append('C09.j noise models look at every operation of a moment (no early exit from the accumulating loop)')
+    simrules.repeated_key_map_rule(ctx, 'C09.k')
+    ctx.decided.append('C09.k a noise model that sets measurements aside by key keeps every measurement of a repeated key')
     ctx.decided.append('C09.i noise models reduce over the operations of a moment order-independently (e.g. the moment duration is the running maximum of the gate durations)')
     ctx.decided.append('C09.h final_density_matrix applies the noise model to the circuit as written, before measurements are deferred, and not again afterwards')
     ctx.decided.append('C09.g final_density_matrix: an integer initial state is rescaled when defer_measurements appends ancillas')
